@@ -67,6 +67,8 @@ var ghost struct {
 	ioRestLines string
 	ioEol       bool
 
+	ioKeyed int // 1 once the key of the attribute serializeAttrs is printing has been written (C05)
+
 	ioSeq int // the sources of attributes collectArgs has consulted so far, as decimal digits in call order: 1 context, 2 logger chain, 3 call arguments (C07)
 
 	ioFmt int // content identity of the string the latest fmt.Sprintf call returned (C10 WithSkip)
@@ -2320,21 +2322,24 @@ func specTellable(m LogWriter) bool {
 
 // (hand-written: the attribute serializer and the value switch carry C07/C09 clauses)
 //@ func serializeAttrs
-//@   props C02 C07 C09
+//@   props C02 C05 C07 C09
 //@   auto
-//@   nokeeps PrintCtx.prefix, PrintCtx.inGroupedMode
+//@   nokeeps PrintCtx.prefix, PrintCtx.inGroupedMode, ghost.ioKeyed
 //@   keeps PrintCtx.prefix except pc
 //@   keeps PrintCtx.inGroupedMode except pc
 //@   requires [C09.ungrouped] !pc.inGroupedMode
 //@   ensures [C09.prefix] same(pc.prefix, old(pc.prefix)) && !pc.inGroupedMode
 //@   at call slices.SortStableFunc[github.com/hedzr/logg/slog.Attrs github.com/hedzr/logg/slog.Attr] assert [C07.sorted] callee.x == kvps
 //@   at call github.com/hedzr/logg/slog.dedupeSlice[github.com/hedzr/logg/slog.Attrs github.com/hedzr/logg/slog.Attr] assert [C07.unique] callee.x == kvps
+//@   at call (Attr).Key effect ghost.ioKeyed = 0
+//@   at call (*PrintCtx).pcAppendStringKey effect ghost.ioKeyed = 1
+//@   at call (*PrintCtx).appendValue assert [C05.keyed] ghost.ioKeyed == 1 || typeis(v, groupedValue) || old(pc.inGroupedMode)
 //@   loop 1 invariant [C09.restore] same(pc.prefix, prefix) && !pc.inGroupedMode && same(prefix, old(pc.prefix))
 
 //@ func (*PrintCtx).appendValue
 //@   props C02 C09
 //@   auto
-//@   nokeeps PrintCtx.prefix, PrintCtx.inGroupedMode
+//@   nokeeps PrintCtx.prefix, PrintCtx.inGroupedMode, ghost.ioKeyed
 //@   keeps PrintCtx.prefix except s
 //@   keeps PrintCtx.inGroupedMode except s
 //@   requires [C09.ungrouped] !s.inGroupedMode
@@ -2419,7 +2424,7 @@ func specTellable(m LogWriter) bool {
 //@ func (*kvp).SerializeValueTo
 //@   props C02 C09
 //@   auto
-//@   nokeeps PrintCtx.prefix, PrintCtx.inGroupedMode
+//@   nokeeps PrintCtx.prefix, PrintCtx.inGroupedMode, ghost.ioKeyed
 //@   keeps PrintCtx.prefix except pc
 //@   keeps PrintCtx.inGroupedMode except pc
 //@   ensures [C09.ungrouped] !pc.inGroupedMode
@@ -2428,7 +2433,7 @@ func specTellable(m LogWriter) bool {
 //@   props C02 C07 C09
 //@   at call serializeAttrs assert [C07.group-sorted] callee.pc == pc && callee.kvps == s.items
 //@   auto
-//@   nokeeps PrintCtx.prefix, PrintCtx.inGroupedMode
+//@   nokeeps PrintCtx.prefix, PrintCtx.inGroupedMode, ghost.ioKeyed
 //@   keeps PrintCtx.prefix except pc
 //@   keeps PrintCtx.inGroupedMode except pc
 //@   requires [C09.ungrouped] !pc.inGroupedMode
@@ -2438,7 +2443,7 @@ func specTellable(m LogWriter) bool {
 //@   props C02 C07 C09
 //@   at call serializeAttrs assert [C07.group-sorted] callee.pc == pc && callee.kvps == s
 //@   auto
-//@   nokeeps PrintCtx.prefix, PrintCtx.inGroupedMode
+//@   nokeeps PrintCtx.prefix, PrintCtx.inGroupedMode, ghost.ioKeyed
 //@   keeps PrintCtx.prefix except pc
 //@   keeps PrintCtx.inGroupedMode except pc
 //@   requires [C09.ungrouped] !pc.inGroupedMode
